@@ -93,6 +93,10 @@ fn drain_ping(fd: BorrowedFd<'_>) -> std::io::Result<u64> {
 
         Ok(_) => unreachable!(),
 
+        // Nothing to read: a spurious wake-up (for instance a stale event that had been collected
+        // for a source which held our token before us). Neither a ping nor a close, not an error.
+        Err(Errno::AGAIN) => Ok(0),
+
         // Any other error can be propagated.
         Err(e) => Err(e.into()),
     }
